@@ -2,6 +2,7 @@ import SycVerif.Driver.Route
 import SycVerif.Driver.Num
 import SycVerif.Driver.IsDynRead
 import SycVerif.Driver.Reactive
+import SycVerif.Driver.ListMapDrv
 /-! Native driver: one request per line on stdin (`<engine> <op> <args…>`), one reply per line. -/
 open SycVerif.Driver
 
@@ -12,6 +13,7 @@ def dispatch (line : String) : String :=
   match line.splitOn " " with
   | "route" :: args => Route.handle args
   | "num" :: args => Num.handle args
+  | "listmap" :: args => ListMapDrv.handle args
   | _ => "bad-op"
 
 partial def loop (h : IO.FS.Stream) (out : IO.FS.Stream) : IO Unit := do
